@@ -239,6 +239,10 @@ impl Names {
 impl ConstLookup for Names {
     fn get_const_value(&self, name: &CaseInsensitiveString) -> Option<&Variant> {
         self.names().get_const_value(name).or_else(|| {
+            if self.names().contains_key(name) {
+                // a parameter or a variable of the function/sub hides the global constant
+                return None;
+            }
             self.global_names()
                 .and_then(|global_names| global_names.get_const_value(name))
         })
